@@ -125,7 +125,7 @@ def r3_terminator(prog, rep: Report, fam: Family):
              "(siblings agree); strip()/rstrip()/rstrip('\\r\\n') eat characters that belong to the line", floor=2)
     seen = set()
     for c in fam.line_classes:
-        f = prog.resolve(c, "_read_next_line")
+        f = prog.resolve(c, fam.next_reader)
         if f is None or f in seen:
             continue
         seen.add(f)
@@ -216,7 +216,7 @@ def r3b_raw_reader(prog, rep: Report, fam: Family):
     """every raw line read goes through seek + the (checked) next-line reader; direct slicing of the handle is examined"""
     seen = set()
     for c in fam.line_classes:
-        f = prog.resolve(c, "_read_line")
+        f = prog.resolve(c, fam.raw_reader)
         if f is None or f in seen or f.is_abstract:
             continue
         seen.add(f)
@@ -234,7 +234,7 @@ def r3b_raw_reader(prog, rep: Report, fam: Family):
                     direct.append(n)
         rets = returns_of(f.node)
         delegates = bool(rets) and all(isinstance(r.value, ast.Call) and isinstance(r.value.func, ast.Attribute)
-                                       and r.value.func.attr == "_read_next_line" and isinstance(r.value.func.value, ast.Name)
+                                       and r.value.func.attr == fam.next_reader and isinstance(r.value.func.value, ast.Name)
                                        and r.value.func.value.id == f.self_name for r in rets)
         if delegates and not direct:
             rep.ok("C11.R3", f, "raw-reader", "reads through seek + the checked next-line reader")
@@ -272,7 +272,7 @@ def r4_dispatch(prog, rep: Report, fam: Family):
         direct, elementwise, bad = [], [], []
         slice_mapped = False
         for call in calls_in(g.node):
-            if not (isinstance(call.func, ast.Attribute) and call.func.attr == "_get_item"
+            if not (isinstance(call.func, ast.Attribute) and call.func.attr == fam.item_getter
                     and isinstance(call.func.value, ast.Name) and call.func.value.id == g.self_name and call.args):
                 continue
             a = call.args[0]
@@ -322,7 +322,7 @@ def r4_dispatch(prog, rep: Report, fam: Family):
     lines_field = _lines_field(prog, fam)
     seen = set()
     for c in fam.line_classes:
-        for name in ("_read_line", "_get_item"):
+        for name in (fam.raw_reader, fam.item_getter):
             for k in c.repo_mro():
                 f = k.methods.get(name)
                 if f is None or f in seen or f.is_abstract or len(f.params) < 2:
